@@ -42,15 +42,18 @@ class _GatedQueue:
         self.q, self.gate, self.die_after, self.die_code = real_q, gate, die_after, die_code
         self.n = 0
 
+        self.crash_owner = None
+
     def _maybe_die(self):
-        if self.die_after is not None and self.n == self.die_after:
-            if self.die_code < 0:
-                os.kill(os.getpid(), -self.die_code)
-                time.sleep(60)
-            # an ordinary crash: already delivered items are flushed by multiprocessing's exit handler
-            raise _InjectedCrash("injected worker crash")
+        if self.die_after is not None and self.die_code < 0 and self.n == self.die_after:
+            os.kill(os.getpid(), -self.die_code)
+            time.sleep(60)
 
     def put(self, item, block=True, timeout=None):
+        if self.die_after is not None and self.die_code >= 0 and self.n == self.die_after and not self.crash_owner.fired:
+            # the injected crash of the worker's computation, raised at the put when no alignment is left to fail
+            self.crash_owner.fired = True
+            raise vmp.InjectedCrash(f"injected failure at queue put {self.n}")
         self.gate.acquire()
         self._maybe_die()
         self.q.put(item)
@@ -72,10 +75,19 @@ def _gated_target(target, call, qpos, real_q, gate, die_after, die_code):
         pass
     err = None
     try:
-        target(*call)
-    except _InjectedCrash:
-        raise
-    except BaseException as e:  # the worker body failed by itself: exit non-zero, but only when scheduled
+        if die_after is not None and die_code >= 0:
+            import gaftools.cli.realign as R
+
+            class _Q:  # crash_injection only needs somewhere to note the put index
+                crash_at_put = None
+                crash_owner = None
+
+            with vmp.crash_injection(R, die_after, _Q()) as inj:
+                gq.crash_owner = inj
+                target(*call)
+        else:
+            target(*call)
+    except BaseException as e:  # the worker body failed: exit non-zero, but only when scheduled
         err = e
     # all results handed to the queue; wait for permission to exit
     gate.acquire()
